@@ -65,6 +65,7 @@ type Switch struct {
 type Config struct {
 	Policy     int
 	PThresh    uint64   // Bernoulli: switch iff next() < PThresh
+	HotThresh  uint64   // Bernoulli: threshold used instead at "hot" sites (SetHotSites), if larger
 	OnlyIO     bool     // Bernoulli: consider only harness I/O yield points
 	SchedSeed  uint64   // stream for scheduling choices
 	MapPolicy  int      // MapCanonical / MapReversed / MapPermuted
@@ -121,6 +122,22 @@ var st struct {
 
 var hits [MaxSites]uint32
 var ioHits uint64
+var hotSite [MaxSites]bool
+
+// SetHotSites marks the yield sites at which the HotThresh probability applies:
+// statements that touch package-level state, sync/atomic, or store through a
+// selector or index expression (classified by the instrumenter).
+func SetHotSites(ids []uint32) {
+	for _, id := range ids {
+		if id < MaxSites {
+			setHot(id)
+		}
+	}
+}
+
+//go:norace
+//go:noinline
+func setHot(id uint32) { hotSite[id] = true }
 
 //go:norace
 //go:noinline
@@ -382,7 +399,11 @@ func Yield(site uint32) {
 		if st.cfg.OnlyIO && site < SiteIO {
 			return
 		}
-		if splitmix(&st.srng) < st.cfg.PThresh {
+		thr := st.cfg.PThresh
+		if st.cfg.HotThresh > thr && (site >= SiteIO || (site < MaxSites && hotSite[site])) {
+			thr = st.cfg.HotThresh
+		}
+		if splitmix(&st.srng) < thr {
 			// pick uniformly among the other unfinished tasks
 			cnt := 0
 			for i := 0; i < st.ntasks; i++ {
